@@ -70,7 +70,27 @@ pub fn cli_command(cwd: &Path, hash_seed: u64) -> Command {
 
 /// run the binary to completion with stdin closed
 pub fn run_cli(cwd: &Path, hash_seed: u64, args: &[String], timeout: Duration) -> std::io::Result<ChildResult> {
+    run_cli_opt(cwd, hash_seed, args, timeout, false)
+}
+
+/// ... optionally in a working directory that has been removed by the time the program
+/// starts (the child removes it between chdir and exec): asking for the working directory
+/// then fails
+pub fn run_cli_opt(cwd: &Path, hash_seed: u64, args: &[String], timeout: Duration, remove_cwd: bool) -> std::io::Result<ChildResult> {
     let mut c = cli_command(cwd, hash_seed);
+    if remove_cwd {
+        use std::os::unix::ffi::OsStrExt;
+        use std::os::unix::process::CommandExt;
+        let path = std::ffi::CString::new(cwd.as_os_str().as_bytes()).map_err(|e| std::io::Error::new(std::io::ErrorKind::InvalidInput, e))?;
+        unsafe {
+            c.pre_exec(move || {
+                if libc::rmdir(path.as_ptr()) != 0 {
+                    return Err(std::io::Error::last_os_error());
+                }
+                Ok(())
+            });
+        }
+    }
     c.args(args).stdin(Stdio::null()).stdout(Stdio::piped()).stderr(Stdio::piped());
     let mut child = c.spawn()?;
     let mut out = child.stdout.take().unwrap();
